@@ -398,7 +398,7 @@ package limit
 //@   owns[C17]
 
 //@ func (*WindowedLimit).isWindowReady
-//@   ensures[C09] rule: result <==> (rtt < MaxInt64 && int32(inFlight) > l.windowSize)
+//@   ensures[C09,C06,C07] rule: result <==> (rtt < MaxInt64 && int32(inFlight) > l.windowSize)
 //@   assigns nothing
 
 //@ func (*WindowedLimit).EstimatedLimit
@@ -420,10 +420,10 @@ package limit
 //@   maintains[C04,C09] l
 //@   ensures[C09] fast_leaves_no_trace: rtt < l.minRTTThreshold ==> l.sample == old(l.sample) && l.nextUpdateTime == old(l.nextUpdateTime) && ncalls("core.Limit.OnSample") == 0
 //@   ensures[C09] at_most_one_update: ncalls("core.Limit.OnSample") <= 1
-//@   ensures[C09] update_iff: rtt >= l.minRTTThreshold ==> (ncalls("core.Limit.OnSample") == 1 <==> (startTime + rtt > old(l.nextUpdateTime) && rtt < MaxInt64 && int32(inFlight) > l.windowSize))
+//@   ensures[C06,C07,C09] update_iff: rtt >= l.minRTTThreshold ==> (ncalls("core.Limit.OnSample") == 1 <==> (startTime + rtt > old(l.nextUpdateTime) && rtt < MaxInt64 && int32(inFlight) > l.windowSize))
 //@   ensures[C09] fold_success: rtt >= l.minRTTThreshold && !didDrop && ncalls("core.Limit.OnSample") == 0 ==> l.sample.minRTT == min(old(l.sample.minRTT), rtt) && l.sample.sum == old(l.sample.sum) + rtt && l.sample.sampleCount == old(l.sample.sampleCount) + 1 && l.sample.maxInFlight == max(old(l.sample.maxInFlight), inFlight) && l.sample.didDrop == old(l.sample.didDrop)
 //@   ensures[C09] fold_drop: rtt >= l.minRTTThreshold && didDrop && ncalls("core.Limit.OnSample") == 0 ==> l.sample.minRTT == old(l.sample.minRTT) && l.sample.sum == old(l.sample.sum) && l.sample.sampleCount == old(l.sample.sampleCount) && l.sample.maxInFlight == max(old(l.sample.maxInFlight), inFlight) && l.sample.didDrop == true
-//@   ensures[C09] delegate_sees_window: ncalls("core.Limit.OnSample") == 1 ==> callrecv("core.Limit.OnSample", 0) == l.delegate && callarg("core.Limit.OnSample", 0, 0) == startTime && callarg("core.Limit.OnSample", 0, 1) == winAvg(old(l.sample.sum), old(l.sample.sampleCount), rtt, didDrop) && callarg("core.Limit.OnSample", 0, 2) == max(old(l.sample.maxInFlight), inFlight) && callarg("core.Limit.OnSample", 0, 3) == (old(l.sample.didDrop) || didDrop)
+//@   ensures[C06,C07,C09] delegate_sees_window: ncalls("core.Limit.OnSample") == 1 ==> callrecv("core.Limit.OnSample", 0) == l.delegate && callarg("core.Limit.OnSample", 0, 0) == startTime && callarg("core.Limit.OnSample", 0, 1) == winAvg(old(l.sample.sum), old(l.sample.sampleCount), rtt, didDrop) && callarg("core.Limit.OnSample", 0, 2) == max(old(l.sample.maxInFlight), inFlight) && callarg("core.Limit.OnSample", 0, 3) == (old(l.sample.didDrop) || didDrop)
 //@   ensures[C09] window_restarts: ncalls("core.Limit.OnSample") == 1 ==> fresh(l.sample) && l.sample.sampleCount == 0 && l.sample.sum == 0 && l.sample.didDrop == false && l.sample.maxInFlight == 0 && l.sample.minRTT == MaxInt64 && l.nextUpdateTime == startTime + rtt + min(max(wrap64(winMin(old(l.sample.minRTT), rtt, didDrop) * 2), l.minWindowTime), l.maxWindowTime) && l.nextUpdateTime > startTime + rtt
 //@   ensures[C09] no_update_keeps_period: ncalls("core.Limit.OnSample") == 0 ==> l.nextUpdateTime == old(l.nextUpdateTime)
 //@   ensures[C04] delegate_rtt_nonneg: ncalls("core.Limit.OnSample") == 1 ==> callarg("core.Limit.OnSample", 0, 1) >= 0 && callarg("core.Limit.OnSample", 0, 2) >= 0
@@ -454,7 +454,7 @@ package limit
 //@   refines[C04] core.Limit.OnSample with est = l.limit.est
 //@   requires sample: 0 <= rtt && 0 <= inFlight
 //@   maintains l
-//@   ensures[C04,C16] forwards_unchanged: ncalls("core.Limit.OnSample") == 1 && callrecv("core.Limit.OnSample", 0) == l.limit && callarg("core.Limit.OnSample", 0, 0) == startTime && callarg("core.Limit.OnSample", 0, 1) == rtt && callarg("core.Limit.OnSample", 0, 2) == inFlight && callarg("core.Limit.OnSample", 0, 3) == didDrop
+//@   ensures[C04,C06,C07,C08,C15,C16] forwards_unchanged: ncalls("core.Limit.OnSample") == 1 && callrecv("core.Limit.OnSample", 0) == l.limit && callarg("core.Limit.OnSample", 0, 0) == startTime && callarg("core.Limit.OnSample", 0, 1) == rtt && callarg("core.Limit.OnSample", 0, 2) == inFlight && callarg("core.Limit.OnSample", 0, 3) == didDrop
 //@   safety[C04]
 
 // ---------------------------------------------------------------------------------------------
